@@ -60,6 +60,7 @@ func specVarintOK(b string) bool {
 
 //@ func ConsumeVarint(b []byte) (v uint64, n int)
 //@ props C03 C19 C04 C01 C05
+//@ safety C03 C19
 //@ ensures (n == -1) == !specVarintOK(string(b))
 //@ ensures n != -1 ==> n == specVarintLen(b[0]) && v == specVarintValue(string(b)) && v <= MaxVarint
 //@ ensures n == -1 ==> v == 0
@@ -70,6 +71,7 @@ func specVarintOK(b string) bool {
 
 //@ func ConsumeVarintInt64(b []byte) (v int64, n int)
 //@ props C03 C19
+//@ safety C03 C19
 //@ ensures (n == -1) == !specVarintOK(string(b))
 //@ ensures n != -1 ==> n == specVarintLen(b[0]) && v >= 0 && uint64(v) == specVarintValue(string(b))
 //@ assigns none
@@ -79,6 +81,7 @@ func specVarintOK(b string) bool {
 
 //@ func AppendVarint(b []byte, v uint64) (res []byte)
 //@ props C19 C04 C01 C05
+//@ safety C03 C19
 //@ requires v <= MaxVarint
 //@ ensures len(res) == len(b)+specSizeVarint(v)
 //@ ensures string(res[:len(b)]) == old(string(b))
@@ -90,6 +93,7 @@ func specVarintOK(b string) bool {
 
 //@ func SizeVarint(v uint64) (n int)
 //@ props C19
+//@ safety C03 C19
 //@ requires v <= MaxVarint
 //@ ensures n == specSizeVarint(v)
 //@ assigns none
@@ -98,6 +102,7 @@ func specVarintOK(b string) bool {
 
 //@ func ConsumeUint32(b []byte) (v uint32, n int)
 //@ props C03 C19
+//@ safety C03 C19
 //@ ensures (n == -1) == (len(b) < 4)
 //@ ensures n != -1 ==> n == 4 && v == ((uint32(b[0])*256+uint32(b[1]))*256+uint32(b[2]))*256+uint32(b[3])
 //@ assigns none
@@ -107,6 +112,7 @@ func specVarintOK(b string) bool {
 
 //@ func ConsumeUint64(b []byte) (v uint64, n int)
 //@ props C03 C19
+//@ safety C03 C19
 //@ ensures (n == -1) == (len(b) < 8)
 //@ ensures n != -1 ==> n == 8 && v == ((((((uint64(b[0])*256+uint64(b[1]))*256+uint64(b[2]))*256+uint64(b[3]))*256+uint64(b[4]))*256+uint64(b[5]))*256+uint64(b[6]))*256+uint64(b[7])
 //@ assigns none
@@ -116,6 +122,7 @@ func specVarintOK(b string) bool {
 
 //@ func ConsumeUint8Bytes(b []byte) (res []byte, n int)
 //@ props C03 C19
+//@ safety C03 C19
 //@ ensures (n == -1) == (len(b) < 1 || int(b[0]) > len(b)-1)
 //@ ensures n != -1 ==> n == 1+int(b[0]) && sameslice(res, b[1:n])
 //@ ensures n == -1 ==> res == nil
@@ -126,6 +133,7 @@ func specVarintOK(b string) bool {
 
 //@ func AppendUint8Bytes(b []byte, v []byte) (res []byte)
 //@ props C19
+//@ safety C03 C19
 //@ requires len(v) <= 255
 //@ requires SpareDisjoint(b, v)
 //@ ensures len(res) == len(b)+1+len(v)
@@ -138,6 +146,7 @@ func specVarintOK(b string) bool {
 
 //@ func ConsumeVarintBytes(b []byte) (res []byte, n int)
 //@ props C03 C19
+//@ safety C03 C19
 //@ ensures (n == -1) == (!specVarintOK(string(b)) || specVarintValue(string(b)) > uint64(len(b)-specVarintLen(b[0])))
 //@ ensures n != -1 ==> n == specVarintLen(b[0])+int(specVarintValue(string(b))) && sameslice(res, b[specVarintLen(b[0]):n])
 //@ ensures n == -1 ==> res == nil
@@ -148,6 +157,7 @@ func specVarintOK(b string) bool {
 
 //@ func AppendVarintBytes(b []byte, v []byte) (res []byte)
 //@ props C19
+//@ safety C03 C19
 //@ requires SpareDisjoint(b, v)
 //@ ensures len(res) == len(b)+specSizeVarint(uint64(len(v)))+len(v)
 //@ ensures string(res[:len(b)]) == old(string(b))
